@@ -10,6 +10,7 @@ static int op_reset(int argc, char **argv)
    {
    (void)argc; (void)argv;
    bits_reset();
+   scale_reset();
    template_reset();
    ieee_reset();
    codec_reset_all();
@@ -31,7 +32,7 @@ static int op_dbg(int argc, char **argv)
    }
 static struct op_entry ops_core[] = { { "reset", op_reset }, { "dbg", op_dbg }, { NULL, NULL } };
 
-static struct op_entry *tables[] = { ops_core, ops_bits, ops_template, ops_ieee, ops_codec, ops_tables, ops_frame, NULL };
+static struct op_entry *tables[] = { ops_core, ops_bits, ops_template, ops_ieee, ops_codec, ops_tables, ops_frame, ops_scale, NULL };
 
 int bvp_parse_hex(const char *s, unsigned char **out)
    {
